@@ -7,6 +7,7 @@ package main
 // the external default.
 
 import (
+	"os"
 	"fmt"
 	"regexp"
 	"go/token"
@@ -133,9 +134,33 @@ func (fr *Frame) staticCall(callee *ssa.Function, bindings []Val, args []Val, rt
 		if fr.depth < maxInlineDepth && !fr.onStack(callee) && fr.inlineSize(callee) {
 			return fr.inline(callee, bindings, args, rt)
 		}
+		if ct := fr.contractFor(callee); ct != nil && len(bindings) == len(callee.FreeVars) && allFinalCaptures(callee) {
+			// a closure with its own contract that is too large to run inline: its contract is
+			// applied, the captured (effectively final) variables denoting their current contents
+			names := paramNames(callee)
+			if len(ct.Params) > 0 {
+				names = ct.Params
+			}
+			all := append([]Val{}, args...)
+			for i, fv := range callee.FreeVars {
+				pt, ok := fv.Type().Underlying().(*types.Pointer)
+				if !ok {
+					continue
+				}
+				lv := fr.loadPtr(fr.cur.heap, bindings[i], pt.Elem())
+				lv.Typ = pt.Elem()
+				for len(names) < len(all) {
+					names = append(names, "_")
+				}
+				names = append(names, fv.Name())
+				all = append(all, lv)
+			}
+			vc.note("call of the closure " + funcKey(callee) + ": its own contract applied (captured variables bound to their current values)")
+			return fr.applyContract(ct, callee.Signature, names, all, rt, pos, funcKey(callee))
+		}
 		vc.note("call of " + funcKey(callee) + " (no contract, not inlined): havoc of its syntactic may-modify set")
 		ms := vc.modSet(callee, map[*ssa.Function]bool{})
-		fr.cur.heap = fr.keepLocals(vc.heapHavoc(fr.cur.heap, ms), nil)
+		fr.cur.heap = fr.havocKeep(fr.cur.heap, ms, nil)
 		fr.bumpNow()
 		return fr.typed(vc.freshVal("ret."+callee.Name(), rt))
 	}
@@ -258,7 +283,7 @@ func (fr *Frame) unknownCall(why string, args []Val, rt types.Type, mayWrite boo
 	vc := fr.vc
 	vc.note(why + " in " + fr.top.fn.String() + ": full havoc")
 	if mayWrite {
-		fr.cur.heap = fr.keepLocals(vc.heapHavoc(fr.cur.heap, map[string]bool{"*": true}), nil)
+		fr.cur.heap = fr.havocKeep(fr.cur.heap, map[string]bool{"*": true}, nil)
 	}
 	fr.bumpNow()
 	return fr.typed(vc.freshVal("ret", rt))
@@ -356,7 +381,7 @@ func (fr *Frame) externalCall(name string, sig *types.Signature, args []Val, rt 
 		}
 	}
 	fr.cur.heap = h
-	fr.cur.heap = fr.keepLocals(vc.heapHavoc(fr.cur.heap, set), nil)
+	fr.cur.heap = fr.havocKeep(fr.cur.heap, set, nil)
 	fr.bumpNow()
 	return fr.typed(vc.freshVal("ret."+sanitize(name), rt))
 }
@@ -507,7 +532,7 @@ func (fr *Frame) havocModifies(ct *Contract, env *Env, calleeKey string) *Heap {
 	if !ct.HasMod {
 		set := map[string]bool{}
 		vc.modSetContractT(ct, vc.P.Funcs[calleeKey], set, nil)
-		return fr.keepLocals(vc.heapHavoc(h, set), nil)
+		return fr.havocKeep(h, set, nil)
 	}
 	set := map[string]bool{}
 	for _, m := range ct.Modifies {
@@ -528,16 +553,43 @@ func (fr *Frame) havocModifies(ct *Contract, env *Env, calleeKey string) *Heap {
 			h = vc.storeLoc(h, loc, nv)
 		}
 	}
-	return fr.keepLocals(vc.heapHavoc(h, set), nil)
+	return fr.havocKeep(h, set, nil)
 }
 
 // keepLocals records on a havoc node the maps made by this activation (and its inlining
 // ancestors) that never escape: they are used only through m[k], m[k]=v, delete, len and range
 // on the SSA value itself, so no callee can reach them, and a loop leaves them alone unless
 // its own blocks update them.
-func (fr *Frame) keepLocals(h *Heap, li *loopInfo) *Heap {
-	if h.kind != hHavocSet || h.keep != nil {
+// havocKeep: heapHavoc plus the keep-sets of keepLocals on the node created for this havoc
+// (never on an existing node: an empty set returns the heap unchanged).
+func (fr *Frame) havocKeep(h *Heap, set map[string]bool, li *loopInfo) *Heap {
+	n := fr.vc.heapHavoc(h, set)
+	if n == h {
 		return h
+	}
+	return fr.keepLocals(n, li)
+}
+
+func (fr *Frame) keepLocals(h *Heap, li *loopInfo) *Heap {
+	if h.kind != hHavocSet || h.keep != nil || h.keepE != nil {
+		return h
+	}
+	for f := fr; f != nil; f = f.parent {
+		for i := range f.fn.FreeVars {
+			if i < len(f.freeVars) && len(f.freeVars[i].L) > 0 && finalCapture(f.fn, i) {
+				h.keepE = append(h.keepE, f.freeVars[i].L[0])
+			}
+		}
+		for _, al := range f.capturedFinalAllocs() {
+			v, ok := f.vals[al]
+			if !ok || len(v.L) == 0 {
+				continue
+			}
+			if f == fr && li != nil && storedIn(al, li) {
+				continue
+			}
+			h.keepE = append(h.keepE, v.L[0])
+		}
 	}
 	for f := fr; f != nil; f = f.parent {
 		for _, m := range f.localMaps() {
@@ -548,10 +600,166 @@ func (fr *Frame) keepLocals(h *Heap, li *loopInfo) *Heap {
 			if f == fr && li != nil && updatedIn(m, li) {
 				continue
 			}
+			if os.Getenv("GOVC_DEBUG_KEEP") != "" {
+				fmt.Fprintf(os.Stderr, "KEEP heap@%d map %s in %s loop=%v\n", h.id, v.L[0], f.fn.Name(), li != nil)
+			}
 			h.keep = append(h.keep, v.L[0])
 		}
 	}
 	return h
+}
+
+var capturedAllocMemo = map[*ssa.Function][]*ssa.Alloc{}
+
+// capturedFinalAllocs: local variables of this function that live in a heap cell only because a
+// closure captures them, are assigned at most once here and are only read by the closures.
+func (fr *Frame) capturedFinalAllocs() []*ssa.Alloc {
+	if r, ok := capturedAllocMemo[fr.fn]; ok {
+		return r
+	}
+	var out []*ssa.Alloc
+	for _, b := range fr.fn.Blocks {
+		for _, in := range b.Instrs {
+			al, ok := in.(*ssa.Alloc)
+			if !ok || !al.Heap || al.Referrers() == nil {
+				continue
+			}
+			captured := false
+			for _, ref := range *al.Referrers() {
+				if _, isMC := ref.(*ssa.MakeClosure); isMC {
+					captured = true
+				}
+			}
+			if captured && cellWrittenOnce(al, true) {
+				out = append(out, al)
+			}
+		}
+	}
+	capturedAllocMemo[fr.fn] = out
+	return out
+}
+
+func storedIn(al *ssa.Alloc, li *loopInfo) bool {
+	for _, ref := range *al.Referrers() {
+		if st, ok := ref.(*ssa.Store); ok && li.blocks[st.Block()] {
+			return true
+		}
+	}
+	return li.blocks[al.Block()]
+}
+
+func allFinalCaptures(fn *ssa.Function) bool {
+	for i := range fn.FreeVars {
+		if !finalCapture(fn, i) {
+			return false
+		}
+	}
+	return true
+}
+
+var finalCaptureMemo = map[*ssa.FreeVar]bool{}
+
+// finalCapture: free variable i of closure fn is a cell that is written exactly once, by the
+// function that declares the variable (before any closure exists it is only initialised), and
+// only read by every closure that captures it. No callee can then change it.
+func finalCapture(fn *ssa.Function, i int) bool {
+	fv := fn.FreeVars[i]
+	if r, ok := finalCaptureMemo[fv]; ok {
+		return r
+	}
+	finalCaptureMemo[fv] = false
+	if _, isPtr := fv.Type().Underlying().(*types.Pointer); !isPtr {
+		return false
+	}
+	parent := fn.Parent()
+	if parent == nil {
+		return false
+	}
+	// the value bound to this free variable at every MakeClosure of fn in the parent
+	var cell ssa.Value
+	for _, b := range parent.Blocks {
+		for _, in := range b.Instrs {
+			if mc, ok := in.(*ssa.MakeClosure); ok && mc.Fn == ssa.Value(fn) && i < len(mc.Bindings) {
+				if cell != nil && cell != mc.Bindings[i] {
+					return false
+				}
+				cell = mc.Bindings[i]
+			}
+		}
+	}
+	if cell == nil {
+		return false
+	}
+	ok := cellWrittenOnce(cell, true)
+	finalCaptureMemo[fv] = ok
+	return ok
+}
+
+// cellWrittenOnce: cell is an Alloc with (at most, when allowInit) one Store in its declaring
+// function, otherwise only loads, debug refs and captures by closures that themselves only read it;
+// or it is the parent's own free variable satisfying the same.
+func cellWrittenOnce(cell ssa.Value, allowInit bool) bool {
+	switch c := cell.(type) {
+	case *ssa.Alloc:
+		stores := 0
+		for _, ref := range *c.Referrers() {
+			switch r := ref.(type) {
+			case *ssa.DebugRef:
+			case *ssa.UnOp:
+				if r.Op != token.MUL {
+					return false
+				}
+			case *ssa.Store:
+				if r.Addr != ssa.Value(c) || r.Val == ssa.Value(c) {
+					return false
+				}
+				stores++
+			case *ssa.MakeClosure:
+				f := r.Fn.(*ssa.Function)
+				for k, bnd := range r.Bindings {
+					if bnd == ssa.Value(c) && !onlyRead(f.FreeVars[k]) {
+						return false
+					}
+				}
+			default:
+				return false
+			}
+		}
+		return stores <= 1 && (allowInit || stores == 0)
+	case *ssa.FreeVar:
+		if !onlyRead(c) {
+			return false
+		}
+		pf := c.Parent()
+		for k, fv := range pf.FreeVars {
+			if fv == c {
+				return finalCapture(pf, k)
+			}
+		}
+	}
+	return false
+}
+
+func onlyRead(fv *ssa.FreeVar) bool {
+	for _, ref := range *fv.Referrers() {
+		switch r := ref.(type) {
+		case *ssa.DebugRef:
+		case *ssa.UnOp:
+			if r.Op != token.MUL {
+				return false
+			}
+		case *ssa.MakeClosure:
+			f := r.Fn.(*ssa.Function)
+			for k, bnd := range r.Bindings {
+				if bnd == ssa.Value(fv) && !onlyRead(f.FreeVars[k]) {
+					return false
+				}
+			}
+		default:
+			return false
+		}
+	}
+	return true
 }
 
 func updatedIn(m ssa.Value, li *loopInfo) bool {
